@@ -43,6 +43,8 @@ struct Resolver {
     input: BTreeMap<Id, Rc<Def>>,
     /// The long name of a base unit, and the name it is defined under.
     long_names: BTreeMap<Id, Id>,
+    /// The substance that an element symbol like `Na` stands for.
+    symbols: BTreeMap<String, Id>,
     sorted: Vec<Id>,
     unmarked: BTreeSet<Id>,
     temp_marks: BTreeSet<Id>,
@@ -112,7 +114,15 @@ impl Resolver {
         match *expr {
             Expr::Unit { ref name } => {
                 let name = self.intern(name);
-                self.lookup(&name, context);
+                if !self.lookup(&name, context) {
+                    // What is not a unit can be a chemical formula, which
+                    // is made of the elements its symbols stand for.
+                    for symbol in crate::parsing::formula::symbols_in_formula(&name) {
+                        if let Some(element) = self.symbols.get(&symbol).cloned() {
+                            self.visit(&element);
+                        }
+                    }
+                }
             }
             Expr::BinOp(BinOpExpr {
                 ref left,
@@ -366,6 +376,7 @@ pub(crate) fn load_defs(ctx: &mut Context, defs: Defs) -> Vec<String> {
         interned: BTreeSet::new(),
         input: BTreeMap::new(),
         long_names: BTreeMap::new(),
+        symbols: BTreeMap::new(),
         sorted: vec![],
         unmarked: BTreeSet::new(),
         temp_marks: BTreeSet::new(),
@@ -425,6 +436,13 @@ pub(crate) fn load_defs(ctx: &mut Context, defs: Defs) -> Vec<String> {
                 name,
             },
         };
+        if let Def::Substance {
+            symbol: Some(ref symbol),
+            ..
+        } = *def
+        {
+            resolver.symbols.insert(symbol.clone(), id.clone());
+        }
         if let Some(doc) = doc {
             resolver.docs.insert(id.clone(), doc);
         }
